@@ -2,7 +2,7 @@
 import itertools
 
 from .. import impl
-from ..diff import Case, account, _j, _t
+from ..diff import Case, account, _j, _t, compile_cached
 from ..refprolog import Cyclic, Unspecified, Budget
 from ..runner import Acc, watchdog, Hang
 from ..budget import StepBudget, Exceeded
@@ -11,7 +11,7 @@ from ..worlds import ImplWorld, RefWorld, facts_impl, facts_ref
 
 ID = 'C14'
 LEVEL = 'model_checking'
-RULE = ('(seventh alphabet: the facts enumerated through yp.match_dynamic, the API function loaded scripts and hand-written predicates use, instead of a query) ' '(a) every history of depth <= D over the event menu {start (and take the first answer of) an enumeration of '
+RULE = ('(eighth alphabet: the facts enumerated through clauses wrap(X) :- p(X) and wrap2(X) :- true, wrap(X), i.e. by the LAST goal of a clause that stays suspended) (seventh alphabet: the facts enumerated through yp.match_dynamic, the API function loaded scripts and hand-written predicates use, instead of a query) ' '(a) every history of depth <= D over the event menu {start (and take the first answer of) an enumeration of '
         'p(X) / retract(p(X)) / retract(p(a)) in a free slot (<= 2 suspended at once); step slot 1|2; close slot 1|2; '
         'asserta(p(c)); assertz(p(c)); retract(p(b)) once; retractall(p(a))} from the initial stores [] [a] [a,b] '
         '[a,b,a] (and, over a 10-event alphabet with the partially bound patterns retract(p(f(X))) / retractall(p(f(_))) and clear(), from the store [f(a),b,f(b),f(a)]; and over an 11-event alphabet with the ground call p(a) and asserta/assertz of p(a) from [a,b,a]; over a 7-event alphabet with retractall(p(_)) (the predicate is emptied and refilled during a suspension) to depth D+1 from [a,b,a]; and over the 11 base events to depth D-1 from the stores [a, _, b] and [a, [x|_], b] whose middle fact contains a variable; the 7-event alphabet includes a complete retract on another predicate), replayed on a fresh engine through the Python API with the reference model (logical update view: '
@@ -32,7 +32,7 @@ fa, fb = F('f', a), F('f', b)
 INITIAL = [[], [a], [a, b], [a, b, a], [fa, b, fb, fa], [a, V('FactVar'), b],
            [a, F('.', A('x'), V('OpenTail')), b],      # a fact whose argument is the open list [x|_]
            [a, b, a] + [A('n%d' % i) for i in range(300)] + [b]]
-STARTS = {'qa': F('p', a), 'q': F('p', X), 'rX': F('retract', F('p', X)), 'ra': F('retract', F('p', a)), 'rf': F('retract', F('p', F('f', X)))}
+STARTS = {'w': F('wrap', X), 'w2': F('wrap2', X), 'qa': F('p', a), 'q': F('p', X), 'rX': F('retract', F('p', X)), 'ra': F('retract', F('p', a)), 'rf': F('retract', F('p', F('f', X)))}
 EVENTS = ['start:q', 'start:rX', 'start:ra', 'step:1', 'step:2', 'close:1', 'close:2',
           'asserta', 'assertz', 'retract_b', 'retractall_a']
 # a second alphabet for the store with structured facts: partially bound retract patterns
@@ -51,6 +51,12 @@ EMPTY_EVENTS = ['start:rX', 'step:1', 'assertz', 'retractall_all', 'retract_c', 
 # a fifth alphabet: the goal of a suspended retract arrived in a VARIABLE whose binding ends (release) or is
 # replaced by another goal (rebind) while the retract is suspended: the retract goes on with the goal it was given
 GOALVAR_EVENTS = ['startv:rX', 'startv:ra', 'step:1', 'step:2', 'close:1', 'release:1', 'rebind:1', 'assertz', 'retract_b']
+
+
+# an eighth alphabet: the facts enumerated through a CLAUSE of the program whose last (only) goal is the call p(X) -
+# wrap(X) :- p(X).  wrap2(X) :- true, wrap(X). - the clause is suspended after its last goal like after any other
+WRAP_EVENTS = ['start:w', 'start:w2', 'step:1', 'step:2', 'close:1', 'asserta', 'assertz', 'retract_b', 'retractall_a']
+WRAP_PROGRAM = [(F('wrap', X), call(F('p', X))), (F('wrap2', X), conj(TRUE, call(F('wrap', X))))]
 
 
 # a seventh alphabet: the facts enumerated through match_dynamic (the API function that loaded scripts and
@@ -72,9 +78,15 @@ def bounds(tier):
 class Run:
     """executes a history on one world"""
 
-    def __init__(self, w, init):
+    def __init__(self, w, init, wrap=False):
         self.w = w
         self.slots = {1: None, 2: None}
+        if not wrap:
+            pass
+        elif isinstance(w, ImplWorld):
+            w.load(compile_cached(show_program(WRAP_PROGRAM)))
+        else:
+            w.load(WRAP_PROGRAM)
         for t in init:
             w.assert_fact(F('p', t))
         self.nvar = 0
@@ -190,8 +202,9 @@ def _subst(goal, v):
 
 def run_history(init, hist):
     """-> ('ok', states, steps, overlap) | ('violation', sig, detail) | ('disabled',)"""
-    ri = Run(ImplWorld(), init)
-    rr = Run(RefWorld(), init)
+    wrap = any(ev in ('start:w', 'start:w2') for ev in hist)
+    ri = Run(ImplWorld(), init, wrap)
+    rr = Run(RefWorld(), init, wrap)
     states = []
     trace = []
     steps = 0
@@ -307,6 +320,7 @@ def run_shard(spec):
         work += [(5 * 10 ** 7 + idx, hist, 6) for idx, hist in enumerate(itertools.product(EVENTS, repeat=depth - 1)) if idx % n == k]
         work += [(6 * 10 ** 7 + idx, hist, 3) for idx, hist in enumerate(itertools.product(GOALVAR_EVENTS, repeat=depth - 1)) if idx % n == k]
         work += [(9 * 10 ** 7 + idx, hist, 3) for idx, hist in enumerate(itertools.product(MATCH_EVENTS, repeat=depth - 1)) if idx % n == k]
+        work += [(11 * 10 ** 7 + idx, hist, 3) for idx, hist in enumerate(itertools.product(WRAP_EVENTS, repeat=depth - 1)) if idx % n == k]
         work += [(7 * 10 ** 7 + idx, hist, BIG_STORE) for idx, hist in enumerate(itertools.product(BIG_EVENTS, repeat=depth - 1)) if idx % n == k]
         for idx, hist, ii in work:
             init = INITIAL[ii]
